@@ -344,36 +344,49 @@ func concStress(seed int64, n, gor int) map[string]interface{} {
 		return obsValidateRaw(shared[c.a])
 	}
 	capt, _ := startCapture()
-	seq := make([]Obs, len(calls))
-	for i, c := range calls {
-		seq[i] = run(c)
+	// The concurrent phase comes FIRST, in a process that has not called the library yet: lazily built
+	// package state (an index, a cache) is then initialised under contention.  The sequential reference
+	// results are computed afterwards.
+	type seen struct {
+		k int
+		o Obs
 	}
 	var wg sync.WaitGroup
 	var mu sync.Mutex
-	var diffs []map[string]interface{}
-	total := 0
+	all := make([][]seen, gor)
+	start := make(chan struct{})
 	for w := 0; w < gor; w++ {
 		wg.Add(1)
 		go func(w int) {
 			defer wg.Done()
 			rng := rand.New(rand.NewSource(seed*977 + int64(w)))
+			<-start
 			for i := 0; i < n; i++ {
 				k := rng.Intn(len(calls))
-				o := run(calls[k])
-				if !reflect.DeepEqual(o, seq[k]) {
-					mu.Lock()
-					if len(diffs) < 20 {
-						diffs = append(diffs, map[string]interface{}{"call": calls[k].fn, "expr": calls[k].e, "list": shared[calls[k].a], "sequential": seq[k], "concurrent": o})
-					}
-					mu.Unlock()
-				}
+				all[w] = append(all[w], seen{k, run(calls[k])})
 			}
-			mu.Lock()
-			total += n
-			mu.Unlock()
 		}(w)
 	}
+	close(start)
 	wg.Wait()
+	seq := make([]Obs, len(calls))
+	for i, c := range calls {
+		seq[i] = run(c)
+	}
+	var diffs []map[string]interface{}
+	total := 0
+	for w := range all {
+		for _, x := range all[w] {
+			total++
+			if !reflect.DeepEqual(x.o, seq[x.k]) {
+				mu.Lock()
+				if len(diffs) < 20 {
+					diffs = append(diffs, map[string]interface{}{"call": calls[x.k].fn, "expr": calls[x.k].e, "list": shared[calls[x.k].a], "sequential": seq[x.k], "concurrent": x.o})
+				}
+				mu.Unlock()
+			}
+		}
+	}
 	outBytes := int64(0)
 	if capt != nil {
 		outBytes = capt.stop()
